@@ -5,7 +5,7 @@
 set -u
 D=$(mktemp -d /dev/shm/stbem_mut.XXXXXX)
 cp -r /repo/. $D/ ; rm -rf $D/.git
-if [ "$1" = "-e" ]; then sed -i -e "$2" $D/$3 || exit 3; shift 3; else (cd $D && patch -p1 -s < "$1") || { rm -rf $D; exit 3; }; shift; fi
+if [ "$1" = "-e" ]; then sed -i -e "$2" $D/$3 || exit 3; shift 3; else (cd $D && patch -p1 -s < "$(realpath "$1")") || { rm -rf $D; exit 3; }; shift; fi
 [ "$1" = "--" ] && shift
 if ! diff -rq /repo/src $D/src >/dev/null && [ "${BASELINE:-0}" = 1 ]; then /verif/tools/baseline.sh $D; fi
 diff -r /repo/src $D/src | head -${DIFFLINES:-12}
